@@ -559,7 +559,7 @@ func init() {
 				eachInstr(f, func(in ssa.Instruction) {
 					if b, ok := in.(*ssa.BinOp); ok && b.Op == token.EQL {
 						if fl := loadedField(b.X); fl != nil && fieldIs(fl, "Key") {
-							if s, ok := constString(b.Y); ok {
+							if s, ok := constString(b.Y); ok && keyTestTakesValue(b) {
 								rawKeys = append(rawKeys, s)
 							}
 						}
@@ -824,7 +824,7 @@ func init() {
 			eachInstr(ser, func(in ssa.Instruction) {
 				if b, ok := in.(*ssa.BinOp); ok && b.Op == token.EQL {
 					if ld, ok := b.X.(*ssa.UnOp); ok {
-						if fa, ok := ld.X.(*ssa.FieldAddr); ok && fieldName(fa.X.Type(), fa.Field) == "Type" && fa.X == ser.Params[2] {
+						if fa, ok := ld.X.(*ssa.FieldAddr); ok && fieldName(fa.X.Type(), fa.Field) == "Type" && fa.X == ssa.Value(paramOf(ser, "node", 2, 4)) {
 							if k, ok := constInt(b.Y); ok {
 								handled[k] = true
 							}
@@ -1039,4 +1039,54 @@ func (p *Prog) carrierGuarded(h TaintHit, seeds map[ssa.Value]seedInfo) string {
 		}
 	}
 	return found
+}
+
+// keyTestTakesValue: the branch taken when the key comparison holds does something with the attribute —
+// it loads a Val field or calls something — before the enclosing loop moves on to the next attribute.  A
+// test whose true branch only skips the attribute (continue / return true of an inlined predicate) selects
+// nothing to be written.
+func keyTestTakesValue(cmp *ssa.BinOp) bool {
+	refs := cmp.Referrers()
+	if refs == nil {
+		return true
+	}
+	decided := false
+	for _, r := range *refs {
+		ifi, ok := r.(*ssa.If)
+		if !ok {
+			return true // the result is stored or combined: not a plain skip test
+		}
+		decided = true
+		blk := ifi.Block()
+		hdr := loopHeaderOf(blk)
+		seen := map[*ssa.BasicBlock]bool{}
+		var work []*ssa.BasicBlock
+		work = append(work, blk.Succs[0])
+		for len(work) > 0 {
+			b := work[len(work)-1]
+			work = work[:len(work)-1]
+			if seen[b] || b == hdr || b == blk {
+				continue
+			}
+			seen[b] = true
+			for _, in := range b.Instrs {
+				switch x := in.(type) {
+				case *ssa.FieldAddr:
+					if fieldName(x.X.Type(), x.Field) == "Val" {
+						return true
+					}
+				case *ssa.Field:
+					if fieldName(x.X.Type(), x.Field) == "Val" {
+						return true
+					}
+				case ssa.CallInstruction:
+					return true
+				case *ssa.Store, *ssa.MapUpdate, *ssa.Phi:
+					return true
+				}
+			}
+			work = append(work, b.Succs...)
+		}
+	}
+	return !decided
 }
